@@ -372,6 +372,9 @@ func ClassifyErrValue(v ssa.Value, b *ssa.BasicBlock, depth int) ExitKind {
 			case "fmt.Errorf", "errors.New":
 				return ExitFailure
 			}
+			if len(f.Blocks) > 0 && strings.HasPrefix(f.String(), "(") == (f.Signature.Recv() != nil) && f.Pkg != nil && strings.HasPrefix(f.Pkg.Pkg.Path(), modPath) && alwaysNilErr(f) {
+				return ExitSuccess // a helper every feasible return of which yields nil
+			}
 		}
 	case *ssa.UnOp:
 		if x.Op == token.MUL {
@@ -396,9 +399,10 @@ func ClassifyErrValue(v ssa.Value, b *ssa.BasicBlock, depth int) ExitKind {
 				return ExitMaybe
 			}
 		}
-		if kind >= 0 {
+		if kind == ExitSuccess || kind == ExitFailure {
 			return kind
 		}
+		// otherwise a dominating nil test of the phi itself may still decide
 	}
 	switch knownNilness(v, b) {
 	case +1:
